@@ -36,7 +36,7 @@ ROW12 = {"<start>": ["<row>"], "<row>": ["<d>" * 12, "<d>"], "<d>": ["0", "7"]}
 PAIRS = {"<start>": ["<item>"], "<item>": ["<num>", "<pair>"], "<pair>": ["(<item>,<item>)"], "<num>": ["1", "2"]}
 # revisions of two grammars: same nonterminal names, different alternatives (for the parse-history runs)
 ASSGN2 = dict(GR.ASSGN, **{"<assgn>": ["<var> := <rhs>", "<var> += <rhs>"]})
-PAIRS2 = dict(PAIRS, **{"<pair>": ["(<item>,<item>)", "[<item>]"]})
+PAIRS2 = dict(PAIRS, **{"<pair>": ["(<item>,<item>)", "!<item>"]})
 GRAMS = {"assgn": GR.ASSGN, "list": GR.LIST, "pairs": PAIRS, "row12": ROW12, "assgn2": ASSGN2, "pairs2": PAIRS2}
 
 
@@ -176,7 +176,7 @@ def pairs(tier):
         add("grammar-revision", f"assgn2-existential-{nm}", A2, "exists <assgn> a: a" + sugar[len("<assgn>"):], ("or", q("exists", "<assgn>", "a", ma, "start", at_), q("exists", "<assgn>", "b", mb, "start", at_)))
     P2 = "pairs2"
     mp = mx("(", ("<item>", "it"), ",", "<item>", ")")
-    mq = mx("[", ("<item>", "jt"), "]")
+    mq = mx("!", ("<item>", "jt"))
     add("grammar-revision", "pairs2-universal", P2, '<pair>.<item> = "1"', ("and", q("forall", "<pair>", "p", mp, "start", eq("it", "1")), q("forall", "<pair>", "p2", mq, "start", eq("jt", "1"))))
     add("grammar-revision", "pairs2-existential", P2, 'exists <pair> p: p.<item> = "2"', ("or", q("exists", "<pair>", "p", mp, "start", eq("it", "2")), q("exists", "<pair>", "p2", mq, "start", eq("jt", "2"))))
     add("grammar-revision", "pairs2-index-2", P2, '<pair>.<item>[2] = "1"', q("forall", "<pair>", "p", mx("(", "<item>", ",", ("<item>", "it"), ")"), "start", eq("it", "1")))
